@@ -5,7 +5,9 @@
 //! agree and answers with a status, headers and a streamed body derived from the id; the client
 //! checks that what it gets back belongs to its own request and is complete.
 //!
-//! line: `e2e <buf> <pool 0|1> <tls 0|1|2|3> ; <req> ; <req> …`   (tls 2 / 3: the server's ALPN offers only http/1.1 / only h2)
+//! line: `e2e <buf> <pool 0|1> <tls 0|1|2|3> [<shutdown signal at ms>] ; <req> ; <req> …`
+//!   with a signal time every server runs `with_graceful_shutdown`; observations then also carry the virtual ms at which each
+//!   request's handler was entered and `srv=<serving futures that completed Ok>/<servers>` (C07)   (tls 2 / 3: the server's ALPN offers only http/1.1 / only h2)
 //!   (method `W` = protocol upgrade: GET with `Upgrade`, 101, then `bodylen` bytes to the server and `resplen` bytes back on the upgraded stream)
 //!   req: `<id> <ver 11|2> <origin 0-5: scheme/host/port variants, see `origin`> <method G|P|U|D|H|W> <pathlen> <querylen> <bodylen> <bodychunk> <bodyexact 0|1>
 //!         <handler delay ms> <resplen> <respchunk> <respexact 0|1> <start ms> <cancel after ms|->`
@@ -122,10 +124,17 @@ impl tower::Service<http::request::Parts> for Route {
 fn status_of(id: u64) -> u16 { [200u16, 201, 202, 203, 404, 418, 500][(id % 7) as usize] }
 
 #[derive(Default)]
-struct SrvLog { calls: HashMap<u64, (usize, String)> }
+struct SrvLog { calls: HashMap<u64, (usize, String)>, started: HashMap<u64, u64>, t0: Option<tokio::time::Instant> }
 
 async fn handler(log: Arc<Mutex<SrvLog>>, me: usize, req: http::Request<Body>) -> Result<http::Response<ChunkBody>, BoxError> {
     let mut req = req;
+    {
+        // handler entry: the server has started to handle this request (head received)
+        let idh: Option<u64> = req.headers().get("x-id").and_then(|v| v.to_str().ok()).and_then(|v| v.parse().ok());
+        let mut l = log.lock().unwrap();
+        let now = l.t0.map(|t0| t0.elapsed().as_millis() as u64).unwrap_or(0);
+        if let Some(idh) = idh { l.started.entry(idh).or_insert(now); }
+    }
     let on_upgrade = if req.headers().contains_key(http::header::UPGRADE) { Some(hyper::upgrade::on(&mut req)) } else { None };
     let (parts, body) = req.into_parts();
     let h = |n: &str| parts.headers.get(n).and_then(|v| v.to_str().ok()).unwrap_or("").to_string();
@@ -159,6 +168,8 @@ async fn handler(log: Arc<Mutex<SrvLog>>, me: usize, req: http::Request<Body>) -
     if h("x-custom") != format!("v{}", id) { bad.push("header"); }
     {
         let mut l = log.lock().unwrap();
+        let now = l.t0.map(|t0| t0.elapsed().as_millis() as u64).unwrap_or(0);
+        l.started.entry(id).or_insert(now);
         let e = l.calls.entry(id).or_insert((0, String::new()));
         e.0 += 1;
         e.1 = if !bad.is_empty() { format!("bad:{}", bad.join(",")) } else if aborted { "aborted".into() } else { "ok".into() };
@@ -268,9 +279,11 @@ async fn one(svc: hyperdriver::service::SharedService<http::Request<ChunkBody>, 
     }
 }
 
-async fn run_case(buf: usize, pool: bool, tls: bool, alpn_srv: &str, reqs: Vec<R>) -> String {
+async fn run_case(buf: usize, pool: bool, tls: bool, alpn_srv: &str, sig: Option<u64>, reqs: Vec<R>) -> String {
     crate::tls::install();
     let log: Arc<Mutex<SrvLog>> = Default::default();
+    log.lock().unwrap().t0 = Some(tokio::time::Instant::now());
+    let (sig_tx, sig_rx) = tokio::sync::watch::channel(false);
     let mut clients = vec![];
     let mut servers = vec![];
     for me in 0..NSERVERS {
@@ -283,7 +296,16 @@ async fn run_case(buf: usize, pool: bool, tls: bool, alpn_srv: &str, reqs: Vec<R
             let log = log2.clone();
             async move { Ok::<_, BoxError>(tower::service_fn(move |req| handler(log.clone(), me, req))) }
         });
-        servers.push(tokio::spawn(std::future::IntoFuture::into_future(Server::builder().with_acceptor(acceptor).with_make_service(make).with_auto_http().with_tokio())));
+        let srv = Server::builder().with_acceptor(acceptor).with_make_service(make).with_auto_http().with_tokio();
+        if sig.is_some() {
+            let mut rx = sig_rx.clone();
+            servers.push(tokio::spawn(srv.with_graceful_shutdown(async move { let _ = rx.wait_for(|v| *v).await; })));
+        } else {
+            servers.push(tokio::spawn(std::future::IntoFuture::into_future(srv)));
+        }
+    }
+    if let Some(t) = sig {
+        tokio::spawn(async move { tokio::time::sleep(Duration::from_millis(t)).await; let _ = sig_tx.send(true); std::future::pending::<()>().await; });
     }
     let b = Client::builder().with_transport(Route { servers: clients, buf }).with_protocol(hyperdriver::client::conn::protocol::auto::HttpConnectionBuilder::<ChunkBody>::default()).without_redirects();
     let b = if pool { b.with_default_pool() } else { b.without_pool() };
@@ -298,27 +320,47 @@ async fn run_case(buf: usize, pool: bool, tls: bool, alpn_srv: &str, reqs: Vec<R
     // let handlers of cancelled requests finish before the log is read
     tokio::time::sleep(Duration::from_secs(200)).await;
     drop(svc);
-    for sv in servers { sv.abort(); }
+    // with a shutdown signal every serving future must have completed successfully by now
+    let mut srv_ok = 0;
+    for sv in servers {
+        if sig.is_some() && sv.is_finished() { if let Ok(Ok(())) = sv.await { srv_ok += 1; } } else { sv.abort(); }
+    }
     let l = log.lock().unwrap();
-    outs.iter().map(|(id, o)| {
+    let mut out = outs.iter().map(|(id, o)| {
         let (n, f) = l.calls.get(id).cloned().unwrap_or((0, "-".into()));
-        format!("{id}={o}/{n}/{f}")
-    }).collect::<Vec<_>>().join(" ")
+        if sig.is_some() {
+            format!("{id}={o}/{n}/{f}/{}", l.started.get(id).map(|t| t.to_string()).unwrap_or("-".into()))
+        } else { format!("{id}={o}/{n}/{f}") }
+    }).collect::<Vec<_>>().join(" ");
+    if sig.is_some() { out.push_str(&format!(" srv={srv_ok}/{NSERVERS}")); }
+    out
 }
 
 pub fn run(toks: &[&str]) -> String {
     let mut parts: Vec<Vec<&str>> = vec![vec![]];
     for t in toks { if *t == ";" { parts.push(vec![]); } else { parts.last_mut().unwrap().push(*t); } }
-    if parts[0].len() != 3 { return "bad-input".into(); }
+    if parts[0].len() != 3 && parts[0].len() != 4 { return "bad-input".into(); }
+    let sig: Option<u64> = parts[0].get(3).and_then(|t| t.parse().ok());
     let buf: usize = parts[0][0].parse().unwrap_or(1024);
     let reqs: Vec<R> = parts[1..].iter().filter_map(|p| parse_req(p)).collect();
     if reqs.len() != parts.len() - 1 { return "bad-input".into(); }
     let rt = tokio::runtime::Builder::new_current_thread().enable_all().start_paused(true).build().unwrap();
     // tls: 0 = none, 1 = TLS with ALPN h2+http/1.1 on the server, 2 = server offers http/1.1 only, 3 = server offers h2 only
     let tls = parts[0][2];
-    let r = rt.block_on(run_case(buf, parts[0][1] == "1", tls != "0", match tls { "2" => "h11", "3" => "h2", _ => "both" }, reqs));
+    let r = rt.block_on(run_case(buf, parts[0][1] == "1", tls != "0", match tls { "2" => "h11", "3" => "h2", _ => "both" }, sig, reqs));
     drop(rt);
     r
+}
+
+/// scenarios with a graceful-shutdown signal in the middle of the traffic (C07)
+pub fn gen_signal(r: &mut Rng, i: u64) -> String {
+    let base = gen(r, i);
+    let (head, rest) = base.split_once(" ; ").unwrap();
+    // requests start at 0-40 ms (+500 per round), handlers take up to 100 ms, bodies stream with 1 ms gaps
+    let sig = *r.pick(&[0u64, 1, 3, 8, 15, 25, 40, 60, 110, 505, 520, 560]);
+    // cancellations are C01's business: here every request runs to its end
+    let reqs: Vec<String> = rest.split(" ; ").map(|q| { let mut t: Vec<&str> = q.split(' ').collect(); let n = t.len(); t[n - 1] = "-"; t.join(" ") }).collect();
+    format!("{head} {sig} ; {}", reqs.join(" ; "))
 }
 
 pub fn gen(r: &mut Rng, _i: u64) -> String {
